@@ -6,43 +6,53 @@
 From Coq Require Import ZArith List Arith Bool Permutation.
 From SK Require Import Lib.Base Model.Capa Model.Convert Proofs.Penalise Proofs.CapaSymmetry Proofs.ConvertProofs.
 Import ListNotations.
+From SK Require Import Check.AffectedCheck Proofs.CheckerSoundness.
 
 
-Theorem C16_prefix_of_decreasing_order : forall (sav : list Z) (alpha : Z) (betas : list Z), length betas = length sav -> 1 <= length sav -> exists k : nat, 1 <= k <= length sav /\ affected sav alpha betas = firstn k (argsort_desc sav).
+Theorem C16_prefix_of_decreasing_order : forall (sav : list Z) (alpha : Z) (betas : list Z), length betas = length sav -> (1 <= length sav)%nat -> exists k : nat, (1 <= k <= length sav)%nat /\ affected sav alpha betas = firstn k (argsort_desc sav).
 Proof. exact @affected_prefix. Qed.
 
-Theorem C16_columns_valid_distinct_nonempty : forall (sav : list Z) (alpha : Z) (betas : list Z), length betas = length sav -> 1 <= length sav -> subset_ok (length sav) (affected sav alpha betas).
+Theorem C16_columns_valid_distinct_nonempty : forall (sav : list Z) (alpha : Z) (betas : list Z), length betas = length sav -> (1 <= length sav)%nat -> subset_ok (length sav) (affected sav alpha betas).
 Proof. exact @affected_ok. Qed.
 
-Theorem C16_listed_by_decreasing_saving : forall (sav : list Z) (alpha : Z) (betas : list Z), length betas = length sav -> 1 <= length sav -> forall i i' : nat, i <= i' < length (affected sav alpha betas) -> (nthZ sav (nth i' (affected sav alpha betas) 0%nat) <= nthZ sav (nth i (affected sav alpha betas) 0%nat))%Z.
+Theorem C16_listed_by_decreasing_saving : forall (sav : list Z) (alpha : Z) (betas : list Z), length betas = length sav -> (1 <= length sav)%nat -> forall i i' : nat, (i <= i' < length (affected sav alpha betas))%nat -> nthZ sav (nth i' (affected sav alpha betas) 0%nat) <= nthZ sav (nth i (affected sav alpha betas) 0%nat).
 Proof. exact @affected_decreasing. Qed.
 
-Theorem C16_no_excluded_column_larger : forall (sav : list Z) (alpha : Z) (betas : list Z), length betas = length sav -> 1 <= length sav -> forall j j' : nat, In j (affected sav alpha betas) -> j' < length sav -> ~ In j' (affected sav alpha betas) -> (nthZ sav j' <= nthZ sav j)%Z.
+Theorem C16_no_excluded_column_larger : forall (sav : list Z) (alpha : Z) (betas : list Z), length betas = length sav -> (1 <= length sav)%nat -> forall j j' : nat, In j (affected sav alpha betas) -> (j' < length sav)%nat -> ~ In j' (affected sav alpha betas) -> nthZ sav j' <= nthZ sav j.
 Proof. exact @affected_excluded_not_larger. Qed.
 
-Theorem C16_value_of_reported_subset : forall (sav : list Z) (alpha : Z) (betas : list Z), length betas = length sav -> 1 <= length sav -> subset_value sav alpha betas (affected sav alpha betas) = Pbest sav alpha betas.
+Theorem C16_value_of_reported_subset : forall (sav : list Z) (alpha : Z) (betas : list Z), length betas = length sav -> (1 <= length sav)%nat -> subset_value sav alpha betas (affected sav alpha betas) = Pbest sav alpha betas.
 Proof. exact @affected_value. Qed.
 
-Theorem C16_reported_subset_is_optimal : forall (sav : list Z) (alpha : Z) (betas : list Z), length betas = length sav -> 1 <= length sav -> subset_value sav alpha betas (affected sav alpha betas) = Pbest sav alpha betas /\ (forall J' : list nat, subset_ok (length sav) J' -> (subset_value sav alpha betas J' <= subset_value sav alpha betas (affected sav alpha betas))%Z).
+Theorem C16_reported_subset_is_optimal : forall (sav : list Z) (alpha : Z) (betas : list Z), length betas = length sav -> (1 <= length sav)%nat -> subset_value sav alpha betas (affected sav alpha betas) = Pbest sav alpha betas /\ (forall J' : list nat, subset_ok (length sav) J' -> subset_value sav alpha betas J' <= subset_value sav alpha betas (affected sav alpha betas)).
 Proof. exact @affected_optimal. Qed.
 
-Theorem C16_smallest_optimal_size : forall (sav : list Z) (alpha : Z) (betas : list Z), length betas = length sav -> 1 <= length sav -> forall k' : nat, 1 <= k' < length (affected sav alpha betas) -> (subset_value sav alpha betas (firstn k' (argsort_desc sav)) < subset_value sav alpha betas (affected sav alpha betas))%Z.
+Theorem C16_smallest_optimal_size : forall (sav : list Z) (alpha : Z) (betas : list Z), length betas = length sav -> (1 <= length sav)%nat -> forall k' : nat, (1 <= k' < length (affected sav alpha betas))%nat -> subset_value sav alpha betas (firstn k' (argsort_desc sav)) < subset_value sav alpha betas (affected sav alpha betas).
 Proof. exact @affected_smallest_k. Qed.
 
 Theorem C16_argsort_is_permutation : forall sav : list Z, Permutation (argsort_desc sav) (seq 0 (length sav)).
 Proof. exact @argsort_desc_perm. Qed.
 
-Theorem C16_argsort_sorted : forall (sav : list Z) (i i' : nat), i <= i' < length sav -> (nthZ sav (nth i' (argsort_desc sav) 0%nat) <= nthZ sav (nth i (argsort_desc sav) 0%nat))%Z.
+Theorem C16_argsort_sorted : forall (sav : list Z) (i i' : nat), (i <= i' < length sav)%nat -> nthZ sav (nth i' (argsort_desc sav) 0%nat) <= nthZ sav (nth i (argsort_desc sav) 0%nat).
 Proof. exact @argsort_desc_sorted. Qed.
 
-Theorem C16_columns_permute_with_data : forall (p : nat) (sigma : list nat) (sav : list Z), Permutation sigma (seq 0 p) -> length sav = p -> NoDup sav -> forall (alpha : Z) (betas : list Z), map (fun j : nat => nth j sigma 0) (affected (map (fun j : nat => nthZ sav (nth j sigma 0)) (seq 0 p)) alpha betas) = affected sav alpha betas.
+Theorem C16_columns_permute_with_data : forall (p : nat) (sigma : list nat) (sav : list Z), Permutation sigma (seq 0 p) -> length sav = p -> NoDup sav -> forall (alpha : Z) (betas : list Z), map (fun j : nat => nth j sigma 0%nat) (affected (map (fun j : nat => nthZ sav (nth j sigma 0%nat)) (seq 0 p)) alpha betas) = affected sav alpha betas.
 Proof. exact @affected_perm. Qed.
 
-Theorem C16_dense_marks_exactly_these_columns : forall (n p : nat) (anoms : list anom3) (i j : nat), anoms_ok n p anoms -> i < n -> j < p -> (forall (k s e : nat) (cols : list nat), nth_error anoms k = Some (s, e, cols) -> s <= i < e -> In j cols -> nth j (nth i (sub_s2d n p anoms) []) 0 = S k) /\ ((forall (s e : nat) (cols : list nat), In (s, e, cols) anoms -> ~ (s <= i < e /\ In j cols)) -> nth j (nth i (sub_s2d n p anoms) []) 0 = 0).
+Theorem C16_dense_marks_exactly_these_columns : forall (n p : nat) (anoms : list anom3) (i j : nat), anoms_ok n p anoms -> (i < n)%nat -> (j < p)%nat -> (forall (k s e : nat) (cols : list nat), nth_error anoms k = Some (s, e, cols) -> (s <= i < e)%nat -> In j cols -> nth j (nth i (sub_s2d n p anoms) []) 0%nat = S k) /\ ((forall (s e : nat) (cols : list nat), In (s, e, cols) anoms -> ~ ((s <= i < e)%nat /\ In j cols)) -> nth j (nth i (sub_s2d n p anoms) []) 0%nat = 0%nat).
 Proof. exact @sub_s2d_label. Qed.
 
 Theorem C16_dense_shape : forall (n p : nat) (anoms : list anom3), length (sub_s2d n p anoms) = n /\ (forall r : list nat, In r (sub_s2d n p anoms) -> length r = p).
 Proof. exact @sub_s2d_shape. Qed.
+
+Theorem C16_checker_sound : forall c : af_case, af_spec_ok c = true -> af_cols c <> [] /\ NoDup (af_cols c) /\ (forall j : nat, In j (af_cols c) -> (j < length (af_sav c))%nat) /\ (forall i i' : nat, (i <= i')%nat -> (i' < length (af_cols c))%nat -> nthZ (af_sav c) (nthN (af_cols c) i') <= nthZ (af_sav c) (nthN (af_cols c) i)) /\ (forall j : nat, (j < length (af_sav c))%nat -> ~ In j (af_cols c) -> forall i : nat, In i (af_cols c) -> nthZ (af_sav c) j <= nthZ (af_sav c) i) /\ length (af_cols c) = length (affected (af_sav c) (af_alpha c) (af_betas c)).
+Proof. exact @af_spec_ok_sound. Qed.
+
+Theorem C16_checker_exact_when_tie_free : forall c : af_case, af_case_ok c = true -> af_spec c /\ (NoDup (af_sav c) -> af_cols c = affected (af_sav c) (af_alpha c) (af_betas c)).
+Proof. exact @af_case_ok_sound. Qed.
+
+Theorem C16_dense_checker_sound : forall (n p : nat) (anoms : list anom3) (dense : list (list nat)), af_dense_ok (n, p, anoms, dense) = true -> sub_s2d n p anoms = dense.
+Proof. exact @af_dense_ok_sound. Qed.
 
 Print Assumptions C16_prefix_of_decreasing_order.
 Print Assumptions C16_columns_valid_distinct_nonempty.
@@ -56,3 +66,6 @@ Print Assumptions C16_argsort_sorted.
 Print Assumptions C16_columns_permute_with_data.
 Print Assumptions C16_dense_marks_exactly_these_columns.
 Print Assumptions C16_dense_shape.
+Print Assumptions C16_checker_sound.
+Print Assumptions C16_checker_exact_when_tie_free.
+Print Assumptions C16_dense_checker_sound.
